@@ -76,8 +76,17 @@ inline Sys block1d(int m) {
     }
     return from_rows("block1d_" + std::to_string(m) + "x2", R, true);
 }
+// 1-D Poisson with Dirichlet rows kept as single diagonal entries (value 2) and one empty row pattern neighbour
+inline Sys dirichlet1d(int n) {
+    std::vector< std::map<ptrdiff_t,double> > R(n);
+    for (int i = 0; i < n; ++i) {
+        if (i % 7 == 0) { R[i][i] = 2; continue; }
+        R[i][i] = 2; if (i > 0) R[i][i - 1] = -1; if (i + 1 < n) R[i][i + 1] = -1;
+    }
+    return from_rows("dirichlet1d_" + std::to_string(n), R, false);
+}
 inline std::vector<Sys> systems() {
-    return { diffusion2d(7, 7, 10), convdiff2d(6, 6, 2.0, false), convdiff2d(6, 7, 1.0, true), poisson3d(4, 4, 3), arrow(40), block1d(22) };
+    return { diffusion2d(7, 7, 10), convdiff2d(6, 6, 2.0, false), convdiff2d(6, 7, 1.0, true), poisson3d(4, 4, 3), arrow(40), block1d(22), dirichlet1d(44) };
 }
 }
 #endif
